@@ -119,7 +119,7 @@ Definition parse_header (i : str) (mag : N) (t : Z) (b : pbuf) : pbuf :=
   if Nat.ltb (length i) 8 then b else
   match ham84 (ttx_byte_at 0 i) with None => b | Some units =>
   match ham84 (ttx_byte_at 1 i) with None => b | Some tens =>
-  let pn := Z.of_N (tens * 10 + units) in
+  let pn := Z.of_N (if (9 <? tens) || (9 <? units) then N.lor 256 (N.lor (N.shiftl tens 4) units) else tens * 10 + units) in
   if (tens =? 15) && (units =? 15) then b else
   let sel :=                                        (* None: an early return inside the selection block *)
     if (pb_mag b =? 0) && (pb_page b =? 0)%Z then
